@@ -192,6 +192,7 @@ var c03Bytes = []byte{0x00, 0x0d, 0x0a, 0x20, 0x2a, 0x2d, 0x30, 0x39, 0x3b, 0x3e
 var c03Nums = []string{"-1", "0", "1", "999999", "1000000", "2147483647", "2147483648", "9223372036854775808", "100000000000000000000"}
 var c03Lines = []string{"F", "F>", "F> ", "FS", "FS ", "FS !", "FS A", "FS +++++++", "FC", "FC EM", ";PQ", ";PQ:", ";FW", ";FW:", ";PM", "[", "[]", "[-]", "*", "***", "\x00", "\x00\x00", strings.Repeat("A", 300),
 	"FS !999999", "FS A5000", "FS !-1", "FS +!", "FC EM X 1 1 0", "FC EM MID -1 -1 0", "FD EM M 10 10 0", "FA P A B C 1_A 10", "FQ", "FF", "F> 00", ";PM: a", "; x", "*** error", "[x-B2F$]", "[x-F$]", ">"}
+
 // values for the numeric fields of a proposal line (block checksum re-sealed)
 var c03PropNums = []string{"-1", "0", "00", "1", "", "x", "0x12C", "+-1", "999999", "1000000", "2147483647", "2147483648", "1073741824", "9223372036854775807", "9223372036854775808", "100000000000000000000"}
 
